@@ -233,6 +233,50 @@ fn eval_inner(op: &Op, pre: Option<(&Shared, &[(String, Ctx)])>, chans: Option<&
             oh_verif_rt::time::advance(std::time::Duration::from_millis(*ms));
             "ok".into()
         }
+        // kind 3: distinct comments with a steady trickle of releases -- a sliding window of live values, the oldest
+        // released as each new one is made (values go out of scope all the time, not only in bursts)
+        Op::Churn { kind: 3, seed, n, t } => {
+            let mut live: std::collections::VecDeque<(String, AnyOh)> = std::collections::VecDeque::new();
+            let mut f = simcore::Fp::default();
+            let shown_of = |oh: &AnyOh| match oh {
+                AnyOh::N(x) => x.to_string(),
+                AnyOh::Z(x, _) => x.to_string(),
+            };
+            for i in 0..*n {
+                let e = format!("Mo-Su 10:00-{}:00 \"w{}-{}\"", 11 + i % 8, seed, i);
+                match build(&e, &Ctx::Default) {
+                    Ok(oh) => {
+                        f.str(&oh.state(*t));
+                        live.push_back((e, oh));
+                    }
+                    Err(m) => f.str(&m),
+                }
+                if live.len() > 48 {
+                    live.pop_front();
+                }
+                if i % 24 == 23 || i + 1 == *n {
+                    for (e, oh) in &live {
+                        let shown = shown_of(oh);
+                        if !shown.contains(e.split('"').nth(1).unwrap_or("")) {
+                            return format!("CHURN-MIXUP {e:?} prints as {shown:?}");
+                        }
+                    }
+                }
+            }
+            // made again from the same strings, they print the same
+            let expect: Vec<(String, String)> = live.iter().map(|(e, oh)| (e.clone(), shown_of(oh))).collect();
+            drop(live);
+            for (e, shown) in &expect {
+                if let Ok(again) = build(e, &Ctx::Default) {
+                    let shown2 = shown_of(&again);
+                    if shown2 != *shown {
+                        return format!("CHURN-MIXUP {e:?} printed as {shown:?}, made again it prints as {shown2:?}");
+                    }
+                    f.str(&shown2);
+                }
+            }
+            format!("churn {:016x}", f.0)
+        }
         Op::Churn { kind, seed, n, t } => {
             let mut kept: Vec<(String, AnyOh)> = Vec::new();
             let mut f = simcore::Fp::default();
